@@ -179,6 +179,7 @@ pub fn judge(h: &History, recs: &[StepRec]) -> Result<u32, Failure> {
 
 /// Every outcome of the channel selector in the current state (the harness owns the RNG).
 fn enumerate(w: &World, reg: Reg, h: &History, st: &mut Stats) -> Result<(), Failure> {
+    let _watch = w.watch();
     let snap = w.front.snapshot();
     for join in [false, true] {
         // first draws: every value of the bits a selector can look at (0..71) and the values at the limits
@@ -274,6 +275,7 @@ pub fn history_strategy() -> impl Strategy<Value = History> {
 pub fn run(ctx: &mut Ctx) {
     ctx.rule = "proptest histories that change channel plans (JoinAccept CFLists of both types, LinkADRReq masks with every ChMaskCntl, NewChannelReq create/delete, DlChannelReq, >= 96-uplink silences for ADR back-off, re-joins, set_datarate) in 9 regions x join-bias settings x 5 board (MAX_RADIO_POWER, ANTENNA_GAIN) combinations x nb/async/async+ClassC; after every transaction the hook runs the real channel selector on a clone of the region state for every first-draw value 0..71 x 2 second-draw streams, for data and for join frames, under the RNG budget; every real transmission is judged as well (frequency, SF/BW, conducted power against the snapshot before it). Non-trivial: state whose plan or mask differs from the region default, a join on a fixed plan, or a transmission with a commanded power level; distinct by hash".into();
     ctx.assumptions = vec![
+        "non-termination has two detectors: the RNG draw budget per API call (10 000 draws; a rejection-sampling loop without an accepted value) and the non-termination monitor (a step or selector enumeration that stays open for 20 s of wall-clock time while its thread burns 10 s of CPU: a loop that draws no random numbers); both produce a replayable history".into(),
         "channel plan, mask and commanded power are read from the verif-hooks snapshot before the transmission (C08 judges that the snapshot follows the negotiation)".into(),
         "when the mask leaves no usable channel the device may restore the regional defaults (LoRaMac-node behaviour); per-channel data-rate ranges are not judged; AU915 125 kHz joins may use DR0 or DR2".into(),
         "power: conducted power <= MAX_RADIO_POWER, <= regional MaxEIRP - antenna gain, <= EIRP of the last acknowledged TXPower index".into(),
